@@ -58,6 +58,19 @@ pub fn list_structure<const P0: u8, const P1: u8, const P2: u8>(mult: Option<u64
     assert!(ok, "write_metric never reports a validation error for observations");
     assert!(b.counts.is_empty(), "counts buffer left empty");
     let s = b.fields.as_str();
+    if cfg!(verif_native) {
+        // native replay of a counterexample: real number formatting, real String growth; the oracle is a JSON parser
+        let parsed = native_parse_member(s, pre).expect("fields buffer is not valid JSON");
+        match parsed {
+            None => assert!(written == 0 && s.len() == pre && b.metrics.is_empty(), "skipped metric leaves no trace"),
+            Some((values, counts)) => {
+                assert!(written >= 1, "a metric with no usable observation must not appear");
+                assert!(values.len() == written && counts.len() == written, "one value and one count per usable observation");
+                assert!(!b.metrics.is_empty(), "metric declared");
+            }
+        }
+        return;
+    }
     if written == 0 {
         assert!(s.len() == pre, "a metric with no usable observation leaves the fields buffer untouched");
         assert!(b.metrics.is_empty(), "a metric with no usable observation is not declared");
@@ -149,8 +162,8 @@ fn json_string_roundtrip<const N: usize>() {
     out.push_str("ab"); // pre-existing content must be preserved
     hooks::string_json_string(&mut out, text);
     let o = out.as_bytes();
-    kani::cover!(len == N && o.len() > N + 6, "an escape was produced");
-    kani::cover!(len == N && bytes[0] >= 0xc2, "non-ASCII input");
+    kani::cover!(len == N && o.len() > N + 4, "an escape was produced");
+    kani::cover!(len == N && (N == 1 || bytes[0] >= 0xc2), "full-length input (non-ASCII when more than one byte)");
     assert!(o.len() >= 4 && o[0] == b'a' && o[1] == b'b', "existing buffer content preserved");
     let mut dec = [0u8; 8];
     let d = decode_json_string(&o[2..], &mut dec);
@@ -163,9 +176,22 @@ fn json_string_roundtrip<const N: usize>() {
 
 // @check C02 quick timeout=900 mem=14
 // @encodes json_string::JsonString for String (serde_json::to_writer -> format_escaped_str), used for every name, string value, unit and dimension
-// @bounds every valid UTF-8 string of at most 2 bytes (all control characters, quote, backslash, DEL, 2-byte sequences), appended to a non-empty buffer
+// @bounds the empty string and every 1-byte string (all 128 ASCII bytes: every control character, quote, backslash, DEL), appended to a non-empty buffer
 // @oracle output = previous content + a JSON string literal that contains no raw `"`, `\` or byte < 0x20 and decodes (independent decoder in the harness) to exactly the input bytes
 // @stubs Vec::extend_from_slice (no-realloc model with asserted capacity), String::push_str
+#[kani::proof]
+#[kani::unwind(10)]
+#[kani::stub(alloc::vec::Vec::extend_from_slice, crate::stubs::vec_extend_from_slice)]
+#[kani::stub(alloc::string::String::push_str, crate::stubs::string_push_str)]
+pub fn json_string_escapes_1_byte() {
+    json_string_roundtrip::<1>()
+}
+
+// @check C02 thorough timeout=3600 mem=14
+// @encodes json_string::JsonString for String (serde_json::to_writer -> format_escaped_str)
+// @bounds every valid UTF-8 string of at most 2 bytes (incl. all 2-byte sequences)
+// @oracle same as json_string_escapes_1_byte
+// @stubs Vec::extend_from_slice, String::push_str
 #[kani::proof]
 #[kani::unwind(16)]
 #[kani::stub(alloc::vec::Vec::extend_from_slice, crate::stubs::vec_extend_from_slice)]
